@@ -535,20 +535,41 @@ A_C12(S, e, T, aux) ==
        \cup (IF e.tx.m = "open_position" /\ SentTo(e, "fpool") = 0 /\ SentTo(e, "ifund") = 0 THEN {"rounds_to_zero"} ELSE {})
   ELSE {}
 
+\* The gates the property talks about are ghosts too: "paused" is what the successful SetPause transactions
+\* since the deployment established, "open" what the successful SetOpen transactions did, "registered" what
+\* the successful AddVamm / RemoveVamm transactions did - not the stored flags, which a defect may reset
+\* behind the administrators' backs (an emergency shutdown follows the record: C14.shutdown judges that step).
+GateInit(W) ==
+  [paused |-> W.eng.st.paused,
+   open   |-> [v \in Vs(W) |-> W.vamm[v].st.open],
+   reg    |-> {W.ifund.vamms[i] : i \in 1..Len(W.ifund.vamms)}]
+GateNext(g, S, e, T) ==
+  [paused |-> IF EngOp(e, "set_pause") /\ e.res.ok THEN e.tx.a.pause ELSE g.paused,
+   open   |-> [v \in Vs(T) |->
+                 IF e.kind = "tx" /\ e.tx.c = v /\ e.tx.m = "set_open" /\ e.res.ok THEN e.tx.a.open
+                 ELSE IF Op(e, "ifund", "shutdown_vamms") /\ e.res.ok THEN T.vamm[v].st.open
+                 ELSE IF v \in DOMAIN g.open THEN g.open[v] ELSE T.vamm[v].st.open],
+   reg    |-> IF Op(e, "ifund", "add_vamm") /\ e.res.ok THEN g.reg \cup {e.tx.a.vamm}
+              ELSE IF Op(e, "ifund", "remove_vamm") /\ e.res.ok THEN g.reg \ {e.tx.a.vamm}
+              ELSE g.reg]
+GPaused(aux, S) == IF "gate" \in DOMAIN aux THEN aux.gate.paused ELSE S.eng.st.paused
+GOpen(aux, S, v) == IF "gate" \in DOMAIN aux /\ v \in DOMAIN aux.gate.open THEN aux.gate.open[v] ELSE S.vamm[v].st.open
+GReg(aux, S, v) == IF "gate" \in DOMAIN aux THEN v \in aux.gate.reg ELSE IsRegistered(S, v)
+
 (* C14 -- pause, closed markets, emergency shutdown *)
 NoDup(s) == \A i, j \in 1..Len(s) : i # j => s[i] # s[j]
 V_C14(S, e, T, aux) ==
   (IF e.kind = "tx" /\ e.tx.c = "engine"
    THEN LET m == e.tx.m
             hasv == "vamm" \in DOMAIN e.tx.a /\ e.tx.a.vamm \in Vs(S)
-        IN (IF S.eng.st.paused /\ m \in {"open_position", "close_position", "deposit_margin", "withdraw_margin"}
+        IN (IF GPaused(aux, S) /\ m \in {"open_position", "close_position", "deposit_margin", "withdraw_margin"}
             THEN Tag(~e.res.ok /\ Unchanged(e), "C14.paused") ELSE {})
            \cup (IF m \in {"liquidate", "pay_funding"}
                  THEN Tag(e.res.err # "paused", "C14.paused_liq") ELSE {})
-           \cup (IF hasv /\ ~S.vamm[e.tx.a.vamm].st.open
+           \cup (IF hasv /\ ~GOpen(aux, S, e.tx.a.vamm)
                     /\ m \in {"open_position", "close_position", "liquidate", "withdraw_margin", "pay_funding"}
                  THEN Tag(~e.res.ok, "C14.closed") ELSE {})
-           \cup (IF hasv /\ ~IsRegistered(S, e.tx.a.vamm)
+           \cup (IF hasv /\ ~GReg(aux, S, e.tx.a.vamm)
                     /\ m \in {"open_position", "liquidate", "withdraw_margin", "pay_funding"}
                  THEN Tag(~e.res.ok, "C14.unregistered") ELSE {})
    ELSE {})
@@ -567,10 +588,10 @@ V_C14(S, e, T, aux) ==
         ELSE {})
 A_C14(S, e, T, aux) ==
   IF e.kind = "tx" /\ e.tx.c = "engine"
-  THEN (IF S.eng.st.paused THEN {"paused", e.tx.m} ELSE {})
+  THEN (IF GPaused(aux, S) THEN {"paused", e.tx.m} ELSE {})
        \cup (IF "vamm" \in DOMAIN e.tx.a /\ e.tx.a.vamm \in Vs(S) /\ ~S.vamm[e.tx.a.vamm].st.open THEN {"closed"} ELSE {})
        \cup (IF "vamm" \in DOMAIN e.tx.a /\ e.tx.a.vamm \in Vs(S) /\ ~IsRegistered(S, e.tx.a.vamm) THEN {"unregistered"} ELSE {})
-       \cup (IF S.eng.st.paused /\ e.tx.m \in {"liquidate", "pay_funding"} /\ e.res.ok THEN {"paused_but_available"} ELSE {})
+       \cup (IF GPaused(aux, S) /\ e.tx.m \in {"liquidate", "pay_funding"} /\ e.res.ok THEN {"paused_but_available"} ELSE {})
   ELSE IF Op(e, "ifund", "shutdown_vamms") /\ e.tx.s = S.ifund.owner
   THEN {"shutdown"} \cup (IF \E i \in 1..Len(S.ifund.vamms) : S.ifund.vamms[i] \in Vs(S) /\ ~S.vamm[S.ifund.vamms[i]].st.open
                           THEN {"shutdown_with_closed"} ELSE {})
@@ -887,6 +908,7 @@ GF(gcpf, chk, W) ==
 (***************************************************************************)
 AuxInit(W) ==
   [y0     |-> [v \in Vs(W) |-> W.vamm[v].st.y + W.vamm[v].st.total],
+   gate   |-> GateInit(W),
    seen   |-> [v \in Vs(W) |-> {<<W.vamm[v].st.total, W.vamm[v].st.x>>}],
    liqblk |-> [v \in Vs(W) |-> 0],
    lastq  |-> [ok |-> FALSE, c |-> "", q |-> "", dir |-> "", amount |-> 0, val |-> 0],
@@ -912,6 +934,7 @@ UpdNext(upd, S, e, T) ==
 
 AuxNextC(aux, S, e, T, calc) ==
   [y0     |-> aux.y0,
+   gate   |-> GateNext(aux.gate, S, e, T),
    roles  |-> RolesNext(aux.roles, S, e, T),
    gsnaps |-> GSnapsNext(aux.gsnaps, S, e, T),
    open0  |-> IF e.kind = "block" /\ T.blk.h > S.blk.h
